@@ -2,6 +2,7 @@ package main
 
 import (
 	"go/token"
+	"strings"
 	"go/types"
 
 	"golang.org/x/tools/go/ssa"
@@ -231,6 +232,10 @@ func (c *Ctx) ruleThreeWaySelect(rr *RuleRep, rSucc *RuleRep, sites []*reqSite) 
 							}
 							if cs == ctxC && !c.errCauseIsCtxErr(ev, s.Ctx) {
 								rr.Bad(key+"/ctx-cause", ret.Pos(), "the cancelled-context case does not report ctx.Err() of the call's own context as the cause")
+								good = false
+							}
+							if cs == closedC && !c.errCauseNonNil(s.F, ev, ret) {
+								rr.Bad(key+"/closed-cause", ret.Pos(), "the connection-closed case returns an error built from a cause that may be nil (%s): wrapping nil yields nil, so the request is reported as completed without its %s (e.g. after a graceful Disconnect)", describeVal(c.Resolve(ev)), s.AckT)
 								good = false
 							}
 						}
@@ -655,4 +660,39 @@ func (c *Ctx) ruleQoS0NoRetry(rr *RuleRep, sites []*reqSite) {
 			rr.Bad(s.Name+"/wait", s.Selects[0].Pos(), "QoS 0 publish waits for an acknowledgement")
 		}
 	}
+}
+
+// errCauseNonNil: ev is a sentinel, or wrapError*(cause, ...) whose cause is a sentinel (package-level Err* variable),
+// ctx.Err() after Done(), or a value known to be non-nil on this path.
+func (c *Ctx) errCauseNonNil(f *ssa.Function, ev ssa.Value, at ssa.Instruction) bool {
+	nonNil := func(v ssa.Value) bool {
+		if n := c.globalLoadName(v); n != "" {
+			return true
+		}
+		if c.isCtxMethodOf(v, "Err", nil) {
+			return true
+		}
+		if al, ok := c.Resolve(v).(*ssa.Alloc); ok && al != nil {
+			return true
+		}
+		if mi, ok := v.(*ssa.MakeInterface); ok {
+			if _, ok := mi.X.(*ssa.Alloc); ok {
+				return true
+			}
+		}
+		for _, e := range nonNilEdges(f, c.Resolve(v)) {
+			if DominatedByEdge(f, at, e.B, e.K, PathQ{}) {
+				return true
+			}
+		}
+		return false
+	}
+	if nonNil(ev) {
+		return true
+	}
+	call, callee := c.asCall(ev)
+	if call != nil && callee != nil && callee.Pkg == c.Pkg && strings.HasPrefix(callee.Name(), "wrapError") && len(call.Call.Args) > 0 {
+		return nonNil(call.Call.Args[0])
+	}
+	return false
 }
